@@ -21,7 +21,7 @@ RULE = ("states: seeded rich states (1-3 cells; solution with optional isotopes/
 ASSUME = ["both members of every comparison use KNOBS -convergence_tolerance 1e-12",
           "in-memory copies are judged by follow-up results, not by dump text (the serializer drops descriptions by design)",
           "one case in six runs under ASan+UBSan",
-          "tolerance 1e-7 relative as stated, except measured solver-noise floors: pH 5e-6 abs, Alk/charge 1e-10 abs, gas pressure/moles 5e-6 rel, sorbed species 2e-6 rel; delta columns (d_*) are skipped",
+          "tolerance 1e-7 relative as stated, except measured solver-noise floors: pH 5e-6 abs, Alk/charge 1e-10 abs, gas pressure/moles 5e-5 rel, sorbed species 2e-6 rel; delta columns (d_*) are skipped",
           "states are free of redox-active trace elements/gases (a floating pe makes results discontinuous in the 14th digit of total_o)",
           "solution isotopes cannot be read back (known finding C10/read-back-errors/solution-isotopes)"]
 
@@ -49,7 +49,7 @@ def _state(ctx, case):
     return prelude, text, cells, kinds
 
 
-HYGIENE = ("KNOBS\n -convergence_tolerance 1e-10\n -iterations 300\n -tolerance 1e-15\n -step_size 100\n -pe_step_size 10\n -diagonal_scale false\n"
+HYGIENE = ("KNOBS\n -convergence_tolerance 1e-12\n -iterations 300\n -tolerance 1e-16\n -step_size 100\n -pe_step_size 10\n -diagonal_scale false\n"
            "INCREMENTAL_REACTIONS false\nPRINT\n -selected_output true\n")
 
 
@@ -79,16 +79,32 @@ def _tol(head):
     if head in ("pH", "pe"):
         return 1e-7, 5e-6
     if head.startswith(("Alk", "charge", "pct_err")):
-        return 1e-7, 1e-10
-    if head in ("pressure", "total mol", "volume") or head.startswith("g_"):
-        return 5e-6, 1e-13
+        return 1e-6, 1e-10      # alkalinity is a difference of large terms: 3e-7 relative measured between a 14-digit restored state and its original
+    if head in ("pressure", "total mol", "volume") or head.startswith("g_") or head.endswith("(g)"):      # also a gas held as an equilibrium phase (1.7e-5 measured)
+        return 5e-5, 1e-13      # measured between an exact in-memory copy and its original: up to 6.8e-6 (3000-case thorough tier)
     if head.startswith("m_"):
         return 2e-6, 1e-13
     return 1e-7, 1e-13
 
 
-def _cmp_tables(a, b, collect=None):
-    """a, b: snap records. returns (ok, detail, ncells)"""
+def _perturb_dump(d):
+    """the dump text with the large inventories of every block (total_o / total_h of solutions, m / moles of reactants) moved by 3 units in the 14th digit:
+    the RAW text carries 14-15 digits, so a restored state differs from the original by about that much in every number"""
+    sign = {"-total_o": 1, "-total_h": -1, "-m": 1, "-moles": -1, "-initial_moles": 1}
+
+    def f(m):
+        try:
+            v = float(m.group(3))
+        except ValueError:
+            return m.group(0)
+        return "%s%s          %.15g" % (m.group(1), m.group(2), v * (1 + 3e-14 * sign[m.group(2)]))
+    return re.sub(r"(?m)^(\s*)(-total_o|-total_h|-m|-moles|-initial_moles)[ \t]+(\S+)[ \t]*$", f, d)
+
+
+def _cmp_tables(a, b, collect=None, noise=None):
+    """a, b: snap records. returns (ok, detail, ncells).  noise: snap record of the same follow-up on a state that differs from b's in the 14th digit of the water
+    composition; a difference between a and b that is no larger than 30 x what that digit does to the same cell is representation noise of the RAW text"""
+    tz = {so["n"]: so for so in noise["selout"]} if noise else {}
     ta = {so["n"]: so for so in a["selout"]}
     tb = {so["n"]: so for so in b["selout"]}
     if sorted(ta) != sorted(tb):
@@ -114,6 +130,12 @@ def _cmp_tables(a, b, collect=None):
                     rel, ab = _tol(heads[j])
                     if abs(fx - fy) <= rel * max(abs(fx), abs(fy)) + ab:
                         continue
+                    try:
+                        z = tz[k]["cells"][i][j]
+                        if z[0] in "dl" and abs(fx - fy) <= 30 * abs(fy - float(z[1])):
+                            continue
+                    except (KeyError, IndexError, ValueError):
+                        pass
                     if collect is not None:
                         collect.append((heads[j], abs(fx - fy) / max(abs(fx), abs(fy)), fx))
                 if first is None:
@@ -241,16 +263,23 @@ def run_case(ctx, case):
         bad("not-a-fixed-point/%s/%s" % (ctxline.split()[0], opt), "dump->read->dump is not a fixed point after one cycle: line %d %r vs %r (block %s)" % (
             i, la[i] if i < len(la) else None, lb[i] if i < len(lb) else None, ctxline))
     # ---------------------------------------------------------------- follow-up equality
+    probe = {}
+    failed_before = set()        # a follow-up that fails leaves requests pending that the next call of the same instance executes: later follow-ups of that instance are no reference
     for nm, _ in fups:
         ref = _snap_tables(run1, "fu:a:%s" % nm)
         if fu_ret.get("fu:a:%s" % nm) != 0:
+            failed_before.add("a")
+        if "a" in failed_before:
             continue
         for who, run, inst in (("dump-restored", run2, "b"), ("storagebin-copy", run1, "m"), ("serializer-copy", run1, "z")):
             other = _snap_tables(run, "fu:%s:%s" % (inst, nm))
             oret = [r for r in run["records"] if r["ev"] == "ret" and r["op"] == "run" and r.get("tag") == "fu:%s:%s" % (inst, nm)]
             if who == "serializer-copy" and ("react" in kinds or "mix" in kinds):
                 continue     # REACTION / MIX are not part of what the serializer packs (documented entity kinds only)
+            if inst in failed_before:
+                continue
             if oret and oret[0].get("r") != 0:
+                failed_before.add(inst)
                 etxt = (other or {}).get("error", {}).get("text", "")
                 if "has not converged" in etxt or "Numerical method failed" in etxt:
                     continue      # solver robustness from a 14-digit different starting point is not what the property is about
@@ -259,8 +288,27 @@ def run_case(ctx, case):
                 continue
             ok, detail, n = _cmp_tables(ref, other, COLLECT)
             ncmp += n
+            if not ok and who == "dump-restored":
+                # conditioning probe: is the difference what the last digit of the RAW text does to this follow-up?
+                if "pp" not in probe:
+                    probe["pp"] = reader("pp", _perturb_dump(d1), True)[0]
+                noise = _snap_tables(probe["pp"], "fu:b:%s" % nm)
+                if noise:
+                    ok, detail, _ = _cmp_tables(ref, other, COLLECT, noise=noise)
             if not ok:
-                bad("followup-differs/%s" % who, "follow-up %s differs between original and %s instance: %s" % (nm, who, detail))
+                sub = ""
+                diffs = []
+                _cmp_tables(ref, other, diffs, noise=(_snap_tables(probe["pp"], "fu:b:%s" % nm) if (who == "dump-restored" and "pp" in probe) else None))
+                if diffs and "rows" not in detail and "cells" not in detail and "user numbers" not in detail:
+                    # numeric differences only, the largest of them at most 1e-3 relative: the follow-up depends that much on where the solver starts in this state
+                    # (open known finding, rare); a lost or corrupted field shows as a larger or a structural difference and is reported
+                    worst_rel = max(d_[1] for d_ in diffs)
+                    if worst_rel <= 1e-3:
+                        sub = "/small"
+                    elif "SOLID_SOLUTIONS_RAW" in d1:
+                        sub = "/solid-solution-state"      # with a solid solution present even an exact in-memory copy can end elsewhere than its original (open known finding, cf. C02): no numeric oracle there
+                    detail += " (largest relative difference of %d differing cells: %.2e)" % (len(diffs), worst_rel)
+                bad("followup-differs/%s%s" % (who, sub), "follow-up %s differs between original and %s instance: %s" % (nm, who, detail))
     # ---------------------------------------------------------------- SOLUTION_MODIFY restore of totals, total_h, total_o, cb
     sols = _parse_solutions(d1)
     if sols:
